@@ -15,7 +15,7 @@ from ..execu import run
 from ..runner import short
 
 ID = "C13"
-N = {"quick": 5000, "thorough": 160000}
+N = {"quick": 20000, "thorough": 160000}
 TIME_BUDGET = {"quick": 50, "thorough": 540}
 MIN_NONTRIVIAL = {"quick": 300, "thorough": 3000}
 RULE = ("family T (55%): random TypeSpec in the JSON-expressible negation-free fragment (origins int/float/str/bool/None/Decimal/"
